@@ -237,6 +237,7 @@ def run(prog, ctx):
         else:
             res.violate("C08.M", "C08.M|zip-offset", "merge pairs table slices that start at different offsets: %s (offset %s) with %s (offset %s)" % (
                 show(a0)[:70], show(o0), show(a1)[:70], show(o1)), mrg.id, span)
+    C.pairing_rule(res, prog, "C08.M", "countmin::sketch::CountMinSketch", "counts", "total_weight", 3)
     res.rule("C08.M", len(mi) + len(zips), 1, "table accesses / zips in merge")
     for nm in ("halve", "decay"):
         f = C.pub_fn(prog, K, nm)
